@@ -89,6 +89,34 @@ Definition c08_targets (t : list obs) : bool :=
       else if tg =? 8 then (hd0 ev =? 10) && (nthN ev 1 =? nthN it 3)
       else true) (snd o)) t.
 
+(** C10 (state-machine half): a restart on the same stores resumes where the stores say. The first round
+    entrance of a lifetime is (h+1, 0) when the finalization of the recorded height h is stored, and the
+    recorded (h, r) otherwise (recorded = the last SetStateMachineHeightRound, item 18; a stored
+    finalization = item 19 with result 0). *)
+Fixpoint resume_ok (rec : option (N * N)) (fins : list N) (pending : bool) (t : list obs) : bool :=
+  match t with
+  | [] => true
+  | (ev, its) :: rest =>
+      let pending0 := if hd0 ev =? 1 then true else pending in
+      let step := fold_left (fun (acc : bool * option (N * N) * list N * bool) it =>
+                    let '(ok, rc, fs, pend) := acc in
+                    let tg := hd0 it in
+                    if tg =? 18 then (ok, Some (nthN it 1, nthN it 2), fs, pend)
+                    else if (tg =? 19) && (nthN it 6 =? 0) then (ok, rc, nthN it 1 :: fs, pend)
+                    else if (tg =? 1) && pend then
+                      let good := match rc with
+                                  | None => true
+                                  | Some (h, r) =>
+                                      if existsb (N.eqb h) fs then (nthN it 1 =? h + 1) && (nthN it 2 =? 0)
+                                      else (nthN it 1 =? h) && (nthN it 2 =? r)
+                                  end in
+                      (ok && good, rc, fs, false)
+                    else acc) its (true, rec, fins, pending0) in
+      let '(ok, rc, fs, pend) := step in
+      ok && resume_ok rc fs pend rest
+  end.
+Definition c10_sm_resume (t : list obs) : bool := resume_ok None [] false t.
+
 (** C08: a view of another height/round than the one the machine announced last (and carrying no
     jump-ahead) changes nothing: the event has no output at all (22 = the harness could not even deliver it) *)
 Fixpoint stale_inert (cur : option (N * N)) (t : list obs) : bool :=
